@@ -10,6 +10,8 @@ ops (executed in order inside this interpreter):
   prepare_full / prepare_incremental
   pool_crash:k        replace andes.system.Pool by an in-process pool that completes k tasks (seeded order) and then dies
   hash                sha256 of every file of the store
+  edit_live           change an equation string of a model of the live System made by new_system (spec["live_edit"])
+  prepare_live        System.prepare(quick, incremental, nomp) on that same instance
 """
 
 import hashlib
@@ -74,8 +76,7 @@ def eval_models(ss):
             var.v[:] = [rng.uniform(0.5, 1.5) for _ in range(len(var.v))]
         mdl.s_update_var()
         for var in mdl.cache.all_vars.values():
-            if not var.e_inplace:
-                var.e[:] = 0
+            var.e[:] = 0        # in-place equation values are accumulated (+=): start every evaluation from zero
         try:
             mdl.f_update()
             mdl.g_update()
@@ -207,6 +208,16 @@ for op in spec['ops']:
             for c in cases:
                 for m, r in eval_case(c).items():
                     step['eval']['%s@%s' % (m, c)] = r
+        elif op == 'edit_live':
+            # the developer changes an equation of a model of the *live* System (after its code was loaded and hashed)
+            le = spec['live_edit']
+            var = ss.models[le['model']].__dict__[le['var']]
+            var.e_str = le['expr'].replace('$', var.e_str)
+        elif op == 'prepare_live':
+            # ... and asks the same instance to regenerate what is out of date, in this process
+            before = {n: getattr(m.calls, 'md5', None) for n, m in ss.models.items()}
+            ss.prepare(quick=True, incremental=True, nomp=True)
+            step['regenerated'] = sorted(n for n, m in ss.models.items() if getattr(m.calls, 'md5', None) != before[n])
         elif op == 'prepare_full':
             andes.main.prepare(quick=True)
         elif op == 'prepare_incremental':
